@@ -288,6 +288,59 @@ pub fn run(ctx: &Ctx) -> i32 {
             loaded += 1;
         }
     }
+    // every variant of every enumeration, set on the Rust side (a variant no shipped file and no exporter uses is still a
+    // value of the format)
+    {
+        use ThermalBridgeKind::*;
+        let mut variants: Vec<(String, Model)> = vec![];
+        for k in [ROOF, BALCONY, CORNER, INTERMEDIATEFLOOR, INTERNALWALL, GROUNDFLOOR, PILLAR, WINDOW, GENERIC] {
+            let mut m = full_model(true);
+            m.thermal_bridges[0].kind = k;
+            variants.push((format!("thermal bridge kind {:?}", k), m));
+        }
+        for b in [BoundaryType::EXTERIOR, BoundaryType::INTERIOR, BoundaryType::GROUND, BoundaryType::ADIABATIC] {
+            let mut m = full_model(true);
+            m.walls[0].bounds = b;
+            if let Some(e) = m.extra.as_mut() {
+                e[0].bounds = b;
+            }
+            variants.push((format!("boundary {:?}", b), m));
+        }
+        for k in [SpaceType::CONDITIONED, SpaceType::UNCONDITIONED, SpaceType::UNINHABITED] {
+            let mut m = full_model(true);
+            m.spaces[0].kind = k;
+            if let Some(e) = m.extra.as_mut() {
+                e[0].spacetype = k;
+                e[0].nextspacetype = Some(k);
+            }
+            variants.push((format!("space kind {:?}", k), m));
+        }
+        for t in [Tilt::TOP, Tilt::SIDE, Tilt::BOTTOM] {
+            let mut m = full_model(true);
+            if let Some(e) = m.extra.as_mut() {
+                e[0].tilt = t;
+            }
+            variants.push((format!("tilt class {:?}", t), m));
+        }
+        for z in ALL_ZONES {
+            let mut m = full_model(true);
+            m.meta.climate = zone(z);
+            variants.push((format!("climate zone {}", z), m));
+        }
+        for (what, m) in variants {
+            ctx.eval(1);
+            let before = format!("{:?}", m);
+            let d = serde_json::to_value(&m).unwrap();
+            if roundtrip_x(ctx, &d, &|| json!({"part": "enumeration variant", "variant": what}), true).is_some() {
+                loaded += 1;
+            }
+            // and against the value built on the Rust side (not only against the document)
+            let back = m.as_json().ok().and_then(|j| Model::from_json(&j).ok()).map(|q| format!("{:?}", q));
+            if back.as_deref() != Some(before.as_str()) {
+                ctx.violation(&format!("roundtrip:enumeration-variant:{}", what.split(' ').next().unwrap_or("")), &format!("a model with {} does not come back equal from its own JSON", what), json!({"part": "enumeration variant", "variant": what}));
+            }
+        }
+    }
     // singles on the full model
     let subs = leaf_subs(&full);
     #[derive(Default)]
@@ -472,7 +525,7 @@ pub fn run(ctx: &Ctx) -> i32 {
     ctx.nontriv(loaded);
     ctx.finish(
         "model_checking",
-        "JSON-level substitutions on a model whose every field is present and non-default (2 elements per collection, both MatProps variants, all options Some): every leaf x its type alphabet (numbers{0,0.0,1,1.0,0.1234567,-3.5e-7,1e30,0.7,0.2,3.0,50.0}, bools, strings{empty, quotes/UTF-8/escapes, every enum variant name}, ids->nil, key removed, null, arrays emptied / cut to one) singly, all ordered pairs of such substitutions on the one-element-per-collection model (every 7th pair in quick), all 2^11 x 3 patterns of absent top-level collections x extra{None,[],[x]}, all presence patterns of the lists inside cons (2^5), schedules (2^3) and overrides (2^2) with and without the rest of the model; oracle on every document that loads as a Model: from_json(as_json(m)) is Debug-identical to m and serialises to the identical text, and for the base documents and substitutions by non-default values the saved JSON value equals the document that was loaded; f32 number-leaf sweep (all finite bit patterns in thorough, every 4099th in quick) through a plain field and the flatten+untagged Material path; 7 shipped files value-equal after load+save; converted corpus; non-trivial = document loads as a model",
+        "JSON-level substitutions on a model whose every field is present and non-default (2 elements per collection, both MatProps variants, all options Some): every leaf x its type alphabet (numbers{0,0.0,1,1.0,0.1234567,-3.5e-7,1e30,0.7,0.2,3.0,50.0}, bools, strings{empty, quotes/UTF-8/escapes, every enum variant name}, ids->nil, key removed, null, arrays emptied / cut to one) singly, all ordered pairs of such substitutions on the one-element-per-collection model (every 7th pair in quick), all 2^11 x 3 patterns of absent top-level collections x extra{None,[],[x]}, all presence patterns of the lists inside cons (2^5), schedules (2^3) and overrides (2^2) with and without the rest of the model; every variant of every enumeration (9 bridge kinds, 4 boundary kinds, 3 space kinds, 3 tilt classes, 32 climate zones) set on the Rust side; oracle on every document that loads as a Model: from_json(as_json(m)) is Debug-identical to m and serialises to the identical text, and for the base documents and substitutions by non-default values the saved JSON value equals the document that was loaded; f32 number-leaf sweep (all finite bit patterns in thorough, every 4099th in quick) through a plain field and the flatten+untagged Material path; 7 shipped files value-equal after load+save; converted corpus; non-trivial = document loads as a model",
         stride == 1,
         json!({}),
     )
